@@ -733,13 +733,22 @@ increment must not be naught");
 		tmp = __seq_this(clo.fst, &clo);
 	}
 
-	for (; __in_range_p(dt_fixup(tmp), &clo); tmp = __seq_next(tmp, &clo)) {
+	while (__in_range_p(dt_fixup(tmp), &clo)) {
 		struct dt_dt_s tgt = tmp;
+		struct dt_dt_s nxt;
 
 		if (LIKELY(ofmt == NULL)) {
 			tgt = dt_dtconv(tgttyp, tmp);
 		}
 		dt_io_write(tgt, ofmt, NULL, '\n');
+
+		nxt = __seq_next(tmp, &clo);
+		if (clo.naltite && !dt_sandwich_only_t_p(tmp) &&
+		    dt_dtcmp(dt_fixup(nxt), dt_fixup(tmp)) * clo.dir <= 0) {
+			/* the alternative increment undid the increment */
+			break;
+		}
+		tmp = nxt;
 	}
 
 out:
